@@ -1216,6 +1216,9 @@ class SC(_Base, numbers.Complex):
         if _cval(self.i.n) == 0:
             # real non-negative value carried in a complex scalar (e.g. a variance)
             return SC(self.r.sqrt())
+        im = z3.simplify(self.i.n, som=True)
+        if _cval(im) == 0:
+            return SC(self.r.sqrt())
         raise TypeError("complex square root not encodable")
 
     def exp(self):
